@@ -1,5 +1,5 @@
 """C02 — acknowledged commits survive crashes (see checks/_storage.py)."""
-from checks import _storage
+from checks import _commit, _storage
 
 MANIFEST = {
     "engine": {"name": "storage", "path": "spec/storage, shim/fsrec.c",
@@ -25,6 +25,7 @@ MANIFEST = {
 def run(ctx):
     _storage.model_check(ctx)
     tot = _storage.run_sweep(ctx, ctx.pick(18, 96), ctx.pick(120, 2000), ["process", "synced", "mid"], gen2=ctx.pick(1, 4))
+    _commit.close_race(ctx)      # a commit in flight while close() flushes and retires the commit log
     ctx.cov["evaluations"] = tot["images"] + tot["gen2_images"]
     ctx.cov["distinct_nontrivial"] = tot["images"]
     ctx.cov["rule"] = ("one evaluation = one (workload, crash instant, crash model) image reopened by the real recovery code; "
